@@ -653,7 +653,9 @@ def run(prop, tier, sd, rep, clauses, modes):
                                  'extracted_program_threads': len(progs[sample_decl['id']]['threads'])}
             # planner conformance on this slice
             import design
-            nchk, pdiff = design.planner_conformance(w, mdecls, progs, name='plannercheck%d' % sk)
+            # (also the wide programs that are not model-checked: Planner.tla plans 16-provider declarations in seconds since
+            # its maximum-matching operator is recursive)
+            nchk, pdiff = design.planner_conformance(w, [byid[i] for i in ok], progs, name='plannercheck%d' % sk)
             agg.setdefault('nchk', 0)
             agg.setdefault('pdiff', [])
             agg['nchk'] += nchk
